@@ -614,6 +614,8 @@ func replaySeq(c *fw.Ctx, k kase) {
 		r.dirtyDestination(keys, true)
 	case "entry":
 		r.entryPoints(keys)
+	case "entry-peer":
+		r.peerBatch(keys)
 	case "sweep":
 		r.keySweep(keys, buildHonest(keys, false))
 	}
